@@ -91,6 +91,11 @@ class SArr(Ext):
             return A.at(I, IDX.at(I, p))
         if kind == "mgather":
             A, M = t[1], t[2]
+            idx = getattr(M, "notin_of", None)
+            if idx is not None and idx.term[0] == "arange":
+                # deleting the rows [off, off+k): rows before off keep their index, rows after shift by k
+                off, k = idx.term[1], idx.n
+                return A.at(I, ite(I, ops.compare(I, "Lt", p, off), p, ops.binop(I, "+", p, k)))
             return A.at(I, sel(I, M, p))
         if kind == "where":
             return sel(I, t[1], p)
@@ -147,8 +152,15 @@ class SArr(Ext):
             for r in self.row:
                 k *= r
             return ops.binop(I, "*", self.n, k)
-        if name == "mean" or name == "sum":
-            raise Unsupported(f"ndarray.{name} over a symbolic-length array")
+        if name == "sum":
+            def total(I_, a, k):
+                tab = I_.path.ghost.setdefault("array_sums", {})
+                if self.uid not in tab:
+                    tab[self.uid] = I_.path.fresh(f"sum_{self.uid}")
+                return tab[self.uid]
+            return Builtin("ndarray.sum", total)
+        if name == "mean":
+            raise Unsupported("ndarray.mean over a symbolic-length array")
         raise Unsupported(f"ndarray.{name} (symbolic length)")
 
     def py_truth(self, I):
@@ -252,6 +264,43 @@ class SArr(Ext):
 
     def np_array(self, I, copy):
         return self.like(self.term) if copy else self
+
+
+def subst_array(x, target, replacement, seen=None):
+    """replace references to the array object `target` by `replacement` inside a term / array"""
+    seen = {} if seen is None else seen
+    if x is target:
+        return replacement
+    if isinstance(x, SArr):
+        if id(x) in seen:
+            return seen[id(x)]
+        new_term = subst_array(x.term, target, replacement, seen)
+        if new_term is x.term:
+            seen[id(x)] = x
+            return x
+        y = SArr(new_term, x.n, x.row, x.dtype)
+        for extra in ("notin_of",):
+            if hasattr(x, extra):
+                setattr(y, extra, getattr(x, extra))
+        seen[id(x)] = y
+        return y
+    if isinstance(x, tuple):
+        items = [subst_array(i, target, replacement, seen) for i in x]
+        if all(a is b for a, b in zip(items, x)):
+            return x
+        return tuple(items)
+    return x
+
+
+def assign_in_place(existing: "SArr", value: "SArr"):
+    """numpy `existing[:] = value`: the OBJECT keeps its identity (aliases see the new content)"""
+    frozen = SArr(existing.term, existing.n, existing.row, existing.dtype)
+    for extra in ("notin_of",):
+        if hasattr(existing, extra):
+            setattr(frozen, extra, getattr(existing, extra))
+    v = subst_array(value, existing, frozen)
+    existing.term, existing.n, existing.row = v.term, v.n, v.row
+    existing.uid = next(_uid)       # caches keyed by uid (counts, sel/rank functions) belong to the old content
 
 
 # ---------------------------------------------------------------------------------------------
